@@ -12,7 +12,7 @@ EXPLANATION = (
     "(size-writer-pairs) every buffered builder and its streaming sibling use the same (size function, writer function) pair "
     "of beve on the same slice - typed: (typed_slice_size, to_writer_typed_slice), complex: (complex_slice_size, "
     "to_writer_complex_slice), aligned: (aligned_typed_slice_size(s, base), write_aligned_typed_slice_at(_, s, base)) - set "
-    "body_format = Beve, and frame through C01's normal form; (padding-base) both `base` arguments of the aligned form are the "
+    "body_format = Beve, and frame through C01's normal form; (padding-base; also: the blocking and async clients apply the body closure to a builder whose query is already set and never set the query afterwards) both `base` arguments of the aligned form are the "
     "same value 48 + len(self.query), which is the body offset of the emitted frame (and of into_wire_bytes' in-place shift); "
     "(borrow-then-own) the borrowing decoder tries the zero-copy borrow only on the aligned-marker edge (0x5C), falls back to "
     "the owned aligned read on its Err edge (whose error propagates), uses the plain typed read otherwise, and the result is "
@@ -157,6 +157,31 @@ def run(facts, R):
         R.check(private and allg, "format-guard", hp, "helper reached only under body_format == Beve",
                 "%s reads a bulk slice without a format guard and is %s / has an unguarded caller" % (hp, "private" if private else "public"), hb.span,
                 "%d call site(s), all on the Beve arm" % len(callers))
+    # (padding-base, caller side) the aligned form pads for 48 + len(query) *as it is when the body is built*: the clients
+    # hand the body closure a builder whose query is already set, and nothing changes the query afterwards
+    n_bf = 0
+    for cpath in ("client::Client::call_with_body_and_timeout", "async_client::AsyncClient::call_with_body_and_timeout::{closure#0}"):
+        cb = facts.body(cpath)
+        cs = Sym(cb)
+        for i, t in cb.calls():
+            if t["callee"]["name"] != "call_once" or len(t["args"]) != 2:
+                continue
+            tup = cs.op(t["args"][1])
+            if not (tup[0] == "agg" and tup[1] == "tuple" and tup[3] and any(is_call(x, "message::Message::builder") for x in walk(tup))):
+                continue
+            n_bf += 1
+            bexpr = tup[3][0][1]
+            qset = any(x[0] == "call" and x[1].rsplit("::", 1)[-1] in ("query_str", "query_bytes") for x in walk(bexpr))
+            R.check(qset, "padding-base", cb.path, "body closure runs on a builder whose query is already set",
+                    "the body closure is applied to %s: an aligned bulk body built here is padded for a query that is not set yet (body would land misaligned)" % render(bexpr)[:120],
+                    t.get("span"), "builder.id(..).query_str(path) before body_fn")
+            later = []
+            for j, u in cb.calls():
+                if u["callee"]["name"] in ("query_str", "query_bytes", "query_format_code") and "MessageBuilder" in u["callee"]["path"] and j in cb.reachable(cb.succs(i)) and \
+                        u["callee"]["name"] != "query_format_code":
+                    later.append(u["callee"]["name"])
+            R.check(not later, "padding-base", cb.path, "query unchanged after the body is built", "the query is set again (%s) after the body closure ran" % later, t.get("span"))
+    R.floor("padding-base", n_bf, 2, "client body-closure applications")
     rq = facts.body("message::Message::require_body_format")
     rqs = Sym(rq)
     for i, j, st in blocks_assigning_variant(rq, "std::result::Result", "Ok"):
